@@ -69,9 +69,10 @@ void run(size_t idx) {
 		uint64_t seed = mix(g_cfg.seed, 0xC07000 + idx);
 		if (mut) { bytes = mutateFloats(s.bytes, seed); if (bytes.empty()) { R_stat("mutator_rejected"); return; } }
 		NifFile n;
+		Rng rng(seed);
+		if (idx % 2) { src += " {object " + useObject(n, rng) + "}"; R_caseDesc(src); }   // every second case: the object has held another model before
 		if (loadNif(n, bytes) != 0) { R_stat("input_not_accepted"); return; }
 		checkSaves(n, src, "loaded");
-		Rng rng(seed);
 		for (int r = 0; r < p.editRounds; r++) {
 			R_phase("edit");
 			std::string log = applyRandomEdits(n, rng, 3) + headerInfoEdit(n, rng);
@@ -97,6 +98,7 @@ void run(size_t idx) {
 		SynthFile S = synthFile(v, name, seed, so);
 		if (!S.ok) { R_stat("generator_overflow"); return; }
 		NifFile n;
+		if (rest % 3 == 1) { Rng hr(seed ^ 0x0B7); d += " {object " + useObject(n, hr) + "}"; R_caseDesc(d); }
 		if (loadNif(n, S.bytes) != 0) { R_stat("input_not_accepted"); return; }
 		checkSaves(n, d, "loaded");
 		// second generation: what the library wrote, loaded and written again
@@ -113,6 +115,7 @@ void run(size_t idx) {
 		ApiOpts ao;
 		ao.segments = (idx % 2) == 0;
 		ao.partitions = (idx % 3) == 0;
+		ao.usedObject = (idx % 2) == 1;   // Create() on an object that has held another model
 		ApiModel m = buildApiModel(seed, (int)idx, &ao);
 		if (!m.ok) { R_stat("api_model_rejected"); return; }
 		std::string src = "api:" + m.desc;
